@@ -60,3 +60,13 @@ claim("C12",
       "explicit-state DFS over the public API alphabet of RenetServer and RenetClient (real objects, cloned per state)",
       "all public-API call sequences up to depth D on a server with a remote and a local client id and on a stand-alone client; in every state disconnected connections are probed on a clone (emit nothing, yield nothing, accept nothing, cannot be revived, reason unchanged) and the event stream is checked for strict Connected/Disconnected alternation and first-reason reporting",
       TB, "DESIGN.md §5 C12")
+
+claim("C04",
+      "explicit-state DFS over delivery histories of genuine / replayed / tampered payload datagrams against a reference window",
+      "all histories up to length L over genuine payload packets at the anti-replay window boundaries (bases 0, 2^32-256, 2^56, 2^64-600) with one tampered copy per history (11 tamper kinds), against both NetcodeServer::process_packet and NetcodeClient::process_packet of a connected session; reference-window oracle: non-authentic never surfaces nor moves the window (hook digest), genuine at most once, byte-identical, right client id, and must surface when fresh and < 256 behind",
+      TB + "; ChaCha20-Poly1305 (RustCrypto) trusted", "DESIGN.md §5 C04")
+
+claim("C07",
+      "exhaustive sweep of hostile datagram and token byte-string alphabets over prepared protocol states",
+      "all 256 prefix bytes x 20 lengths x 3 fills, every genuine datagram kind with prefix / sequence replaced, truncated or extended, foreign-session and foreign-protocol packets, against server states {source unknown, pending, connected} and client states {requesting, responding, connected, disconnected}; oracle: no unwind, no result, hook snapshot identical, genuine follow-up accepted; connect-token byte strings (truncations, address count x type-byte products, timestamp/timeout extremes) through read -> NetcodeClient::new -> update",
+      TB, "DESIGN.md §5 C07")
